@@ -253,6 +253,13 @@ def run():
                     lambda: mg.FormulaGrader(answers='x', variables=['x'], sample_from={'x': 'abc'}), lambda: mg.LinearComparer(equals='abc'),
                     lambda: mg.MatrixGrader(answers='1', entry_partial_credit=7)):
         op(bad_cfg)
+    # --- last of all: calls that FAIL inside a grader's check (whatever a check switches on for its duration must be
+    # switched back when it raises): negative matrix powers off, then an evaluation with allow_inf
+    gnp = _try(mg.MatrixGrader, answers='[[1,2],[3,4]]', max_array_dim=2, negative_powers=False)
+    if gnp is not None:
+        for sub in ['[[1,2],[3,4]]', '[[1,2],[3,4]]^-1', 'Q*2', '[1,2,3]']:
+            op(gnp, None, sub)
+    op(evaluator, '1e308*10', allow_inf=True)
     return n
 
 
